@@ -190,7 +190,8 @@ impl From<embedded_graphics_core::pixelcolor::Rgb888> for OctColor {
 impl From<embedded_graphics_core::pixelcolor::raw::RawU4> for OctColor {
     fn from(b: embedded_graphics_core::pixelcolor::raw::RawU4) -> Self {
         use embedded_graphics_core::prelude::RawData;
-        OctColor::from_nibble(b.into_inner()).unwrap()
+        // raw values 8..=15 do not name a colour: fall back to the default instead of panicking
+        OctColor::from_nibble(b.into_inner()).unwrap_or_default()
     }
 }
 
